@@ -31,9 +31,11 @@ def opdesc(op):
     return o
 
 
-def make_case(cid, rng, schema, n_ops, code):
+def make_case(cid, rng, schema, n_ops, code, shaped=None):
     ops, metas = GH.gen_library_history(rng, schema, n_ops)
     full = [{"op": "create_temporary", "schema": schema}]
+    if shaped is not None:
+        full += GH.first_id_prelude(schema, GH.FIRST_IDS[shaped % len(GH.FIRST_IDS)])
     for op in ops:
         if op["op"] in MUTATING:
             full.append({"op": "fault_sweep", "inner": op, "code": code, "max_k": 600, "keep_going": True})
@@ -189,7 +191,7 @@ def run(ctx):
     n = 0
     for schema in ALL_SCHEMAS:
         for k in range(per):
-            cases.append(make_case("f%d" % n, ctx.rng, schema, 22 + (k % 3) * 6, codes[k % len(codes)]))
+            cases.append(make_case("f%d" % n, ctx.rng, schema, 22 + (k % 3) * 6, codes[k % len(codes)], shaped=(k // 3 if k % 3 == 1 else None)))
             n += 1
     from ..framework import V2_SCHEMAS
     pert = 6 if ctx.tier == "quick" else 100
